@@ -11,6 +11,9 @@ open Proto EvSel EvSelCrit
         mode   S            select_events(events, inc, ret_original_evt_idxs=True)
                T:N          TrialDataManager.initialize_trial without index field
                T:<sigma>    ... with index field; <sigma> = the argsort permutation
+               H:N | H:<sigma>   the same call on the *current manager object* (state kept between
+                                 requests; `hnew` = construct a fresh manager); uses the object model
+                                 `initTrialObj` with the reset flag extracted from the source
         inc    N | <src list>/<evt list>          (incoming src_evt_idxs; only used in mode S)
         method dec:<delta> | ra:<delta> | box:<delta> | all | psifunc | angerr:<a>:<b>:<floor>
                several methods = left-nested `&` chain; none (mode T only) = no event selection
@@ -86,8 +89,9 @@ def fNat (n : Nat) : String := toString n
 def fmtPairs (P : Pairs) : String :=
   s!"src:{fListD fNat (P.map Prod.fst)} evt:{fListD fNat (P.map Prod.snd)}"
 
-def answer (line : String) : String :=
+def answerRun (st : TdmObj Ev) (line : String) : TdmObj Ev × String :=
   match tokens line with
+  | ["hnew"] => (TdmObj.fresh, "ok")
   | "run" :: sra :: sdec :: era :: edec :: eae :: epsi :: efv :: mode :: inc :: meths =>
     let sra := pList pF sra
     let sdec := pList pF sdec
@@ -95,25 +99,32 @@ def answer (line : String) : String :=
     let K := srcs.size
     let evs := mkEvs (pList pF era) (pList pF edec) (pList pF eae) (pList pF epsi) (pList pF efv)
     match parseMethods srcs K meths with
-    | none => "bad-method"
+    | none => (st, "bad-method")
     | some ms =>
       if mode == "S" then
         match chainAll ms with
-        | none => "bad-method"
+        | none => (st, "bad-method")
         | some m =>
           match m evs (parseInc inc) with
-          | none => "ERR"
+          | none => (st, "ERR")
           | some r =>
-            s!"ev:{fListD fNat (r.events.map Ev.tag)} {fmtPairs r.pairs} org:{fListD fNat r.org}"
+            (st, s!"ev:{fListD fNat (r.events.map Ev.tag)} {fmtPairs r.pairs} org:{fListD fNat r.org}")
       else
+        let perm := (mode.drop 2).toString
         let argsort : Option (List Ev → List Nat) :=
-          if mode == "T:N" then none else some (fun _ => pList pN (mode.drop 2).toString)
-        match initTrial K evs (chainAll ms) argsort with
-        | none => "ERR"
-        | some t => s!"ev:{fListD fNat (t.events.map Ev.tag)} {fmtPairs t.pairs}"
+          if perm == "N" then none else some (fun _ => pList pN perm)
+        if mode.startsWith "H:" then
+          match initTrialObj Gen.C05.resetsTable st K evs (chainAll ms) argsort with
+          | none => (st, "ERR")
+          | some s =>
+            (s, s!"ev:{fListD fNat (s.events.map Ev.tag)} {fmtPairs (s.srcEvtIdxs.getD [])}")
+        else
+          match initTrial K evs (chainAll ms) argsort with
+          | none => (st, "ERR")
+          | some t => (st, s!"ev:{fListD fNat (t.events.map Ev.tag)} {fmtPairs t.pairs}")
   | ["batch", b, k, n] =>
     let rows := batchedMask (pN b) (pN k) (pN n) (fun k => List.replicate (pN n) (k % 2 == 1))
-    fListD (fun row => "r" ++ String.join (row.map fB)) rows
-  | _ => "bad-op"
+    (st, fListD (fun row => "r" ++ String.join (row.map fB)) rows)
+  | _ => (st, "bad-op")
 
-def main : IO Unit := do loop (← IO.getStdin) answer
+def main : IO Unit := do loopS (← IO.getStdin) (TdmObj.fresh : TdmObj Ev) answerRun
